@@ -621,7 +621,7 @@ func pkcs7RoundTrip(r *common.Run, a *agg) {
 	sc := newSec("pkcs7RoundTrip")
 	defer sc.done(r)
 	r.Parallel(255, func(i int) {
-		b := i + 1
+		b := 255 - i // large block sizes first: better balance
 		l := newLagg(i)
 		var ev, nt int64
 		for n := 1; n <= 3*b; n++ {
@@ -730,7 +730,7 @@ func pkcs7Malformed(r *common.Run, a *agg) {
 	sc := newSec("pkcs7Malformed")
 	defer sc.done(r)
 	r.Parallel(255, func(i int) {
-		b := i + 1
+		b := 255 - i // large block sizes first: better balance
 		l := newLagg(i)
 		var ev, nt int64
 		check := func(d []byte, fam string) {
